@@ -19,6 +19,7 @@ drivers = [("ExtractCodec.v", "codec_model", "codec_driver.ml", "codec_driver"),
            ("ExtractMsg.v", "msg_model", "msg_driver.ml", "msg_driver"),
            ("ExtractBroker.v", "broker_model", "broker_driver.ml", "broker_driver"),
            ("ExtractStream.v", "stream_model", "stream_driver.ml", "stream_driver")]
+# further drivers are built on demand by their checks
 for ext, model, drv, exe in drivers:
     if os.path.exists(os.path.join(core.COQ, ext)):
         ok, out = core.build_driver(ext, model, drv, exe)
